@@ -9,6 +9,15 @@ def main():
     try:
         ctx.ensure_ws()
         ctx.build_harness("shmsim", ["shmsim"], ["hooks"], release=True)
+        ctx.build_harness("clientsim", ["clientsim"], None, release=True)
+        ctx.build_harness("clientsim", ["clientsim"], None, release=False)
+        ctx.build_harness("daemonsim", ["daemonsim"], None, release=True)
+        ctx.build_repo(["clock-bound-d", "clock-bound-ffi"], release=True)
+        ctx.build_repo(["clock-bound-d"], release=False, features=["verif-hooks"])
+        p = ctx.cargo(["miri", "run", "-q", "--offline", "-p", "shmsim", "--bin", "shmmiri", "--features", "hooks", "--", "0", "0", "c02"], "miri", toolchain="+nightly", extra_env={"MIRIFLAGS": "-Zmiri-ignore-leaks"})
+        if p.returncode != 0:
+            print(p.stdout[-2000:])
+            return 1
     except common.Inconclusive as e:
         print("setup failed:", e)
         return 1
